@@ -152,9 +152,14 @@ def c02(res, scenario) -> list[Violation]:
     # timed mode: a pause is acknowledged at the first attempt when every step/hook fits the time-out
     if scenario.get("timed"):
         durs = scenario.get("durations", {})
-        longest = sum(durs.get(k, 0.0) for k in ("observe", "step", "affect")) + \
-            sum(durs.get(k, 0.0) for k in ("t_setup", "train", "t_teardown")) + \
-            3 * durs.get("on_paused", 0.0) + 3 * durs.get("on_resumed", 0.0)
+        n_inf = 3 if scenario.get("child_agent") else 2           # agent (+child), environment
+        n_tr = max(1, scenario.get("trainers", 1))
+        inf_path = durs.get("observe", 0.0) + durs.get("affect", 0.0) + \
+            durs.get("step", 0.0) * (n_inf - 1) + n_inf * (durs.get("on_paused", 0.0) + durs.get("on_resumed", 0.0))
+        tr_path = durs.get("t_setup", 0.0) + durs.get("train", 0.0) + durs.get("t_teardown", 0.0) + \
+            n_tr * (durs.get("on_paused", 0.0) + durs.get("on_resumed", 0.0))
+        # in-flight work, plus one 1 s wait slice of the loop guard and two loop periods
+        longest = max(inf_path, tr_path) + 1.0 + 2 * scenario.get("loop_quantum", 0.25)
         if longest + 0.01 < scenario.get("pause_timeout", 60.0):
             in_tp = False
             for i, (th, kind, obj, val) in enumerate(res.events):
@@ -165,8 +170,9 @@ def c02(res, scenario) -> list[Violation]:
                 elif in_tp and th.startswith("worker[") and kind == "wait_timeout":
                     out.append(Violation(
                         "c02:first-attempt-timeout",
-                        f"pause attempt timed out waiting for {obj} (event {i}) although every step "
-                        f"and hook lasts at most {longest}s < time-out {scenario.get('pause_timeout')}s",
+                        f"pause attempt timed out waiting for {obj} (event {i}) although the in-flight "
+                        f"step, its hooks and one wait slice last at most {longest}s < time-out "
+                        f"{scenario.get('pause_timeout')}s",
                         case))
                     break
     return out
